@@ -1106,6 +1106,39 @@ theorem offset_counterexample :
     timeOfBeat 0 [(0, 120)] 4 = 2000 ∧ timeOfBeat (-1) [(0, 120)] 4 = 3000 := by
   decide +kernel
 
+/-! ### the file entry point (`SMMapSet.write_file` / `SMMapSet.read_file`) -/
+
+/-- universal newlines leave a text without carriage returns as it is -/
+theorem univNl_noCR : ∀ (t : Str), '\r' ∉ t → univNl t = t
+  | [], _ => rfl
+  | c :: t, h => by
+    have hc : c ≠ '\r' := fun e => h (by simp [e])
+    have ht : '\r' ∉ t := fun e => h (List.mem_cons_of_mem _ e)
+    have e : univNl (c :: t) = c :: univNl t := by
+      conv_lhs => unfold univNl
+      split
+      · rename_i h1; simp at h1
+      · rename_i h1; simp at h1; exact absurd h1.1 hc
+      · rename_i h1; simp at h1; exact absurd h1.1 hc
+      · rename_i h1; simp at h1; obtain ⟨rfl, rfl⟩ := h1; rfl
+    rw [e, univNl_noCR t ht]
+
+/-- **The file entry point.**  `SMMapSet.write_file` stores the text of `write()` (utf-8, text mode: on this platform
+line breaks are written as they are; (C) compares the content of the file with `renderWritten` on every `write_file`
+case), `SMMapSet.read_file` decodes it with universal newlines and hands it to `read`.  For a text without carriage
+returns — every text of the writer whose header strings have none — reading the file is reading the text, and the
+denotation of the file's content is the denotation of the text, so `write_read_exact_show` speaks about the file. -/
+theorem write_file_read_file (text : Str) (h : '\r' ∉ text) :
+    SM.readFile text = SM.read text ∧ denote (univNl text) = denote text := by
+  unfold SM.readFile
+  rw [univNl_noCR text h]
+  exact ⟨rfl, rfl⟩
+
+/-- … and with a carriage return inside a header string it is not: the value read back from the file has a line break
+in its place (`'\r'` in header strings is outside the domain of the file entry point) -/
+theorem file_cr_counterexample :
+    univNl ['#','T','I','T','L','E',':','a','\r','b',';'] = ['#','T','I','T','L','E',':','a','\n','b',';'] := by decide
+
 /-!
 what is still missing for the full `write_read_exact` for the single statement "denote (write ms) = ms":
 Proved chain: `written_beats_exact` (slotted beat = `beatAt t`) → `slot_beat_exact` (row denotes that beat) →
